@@ -41,10 +41,12 @@ It(n, a) == [n |-> n, a |-> a]
 
 \* import inside a function body (the name is a local of the function)
 Fimp(T, form, alias) == [Imp(T, form, alias) EXCEPT !.k = "fimp"]
+\* ... and the same function run in a spawned thread (a clone of the VM) that is waited for
+Sfimp(T, form, alias) == [Imp(T, form, alias) EXCEPT !.k = "sfimp"]
 ImpForms(T) == IF Len(T) = 1
                THEN {Imp(T, "ident", ""), Imp(T, "ident", "p"), Imp(T, "quoted", ""), Imp(T, "quoted", "q"),
-                     Fimp(T, "ident", "")}
-               ELSE {Imp(T, "quoted", ""), Imp(T, "quoted", "p"), Fimp(T, "quoted", "q")}
+                     Fimp(T, "ident", ""), Sfimp(T, "ident", "")}
+               ELSE {Imp(T, "quoted", ""), Imp(T, "quoted", "p"), Fimp(T, "quoted", "q"), Sfimp(T, "quoted", "q")}
 ItemsFull == { <<It("getx", "")>>, <<It("x", "")>>, <<It("bump", "h")>>,
                <<It("getx", ""), It("bump", "h")>>,
                <<It("bump", "g"), It("bump", "h")>>,          \* one name under two aliases
@@ -71,7 +73,7 @@ World0 == [tree |-> "set", main |-> <<>>, mainclosed |-> FALSE,
                        [name |-> Files[k].name, present |-> Files[k].present, init |-> Files[k].init,
                         body |-> <<>>, set |-> FALSE, closed |-> FALSE]]]
 
-NImports(body) == Cardinality({k \in 1..Len(body): body[k].k \in {"imp", "fimp", "from"}})
+NImports(body) == Cardinality({k \in 1..Len(body): body[k].k \in {"imp", "fimp", "sfimp", "from"}})
 RECURSIVE SumImports(_, _)
 SumImports(ww, k) == IF k > Len(ww.mods) THEN 0 ELSE NImports(ww.mods[k].body) + SumImports(ww, k + 1)
 
@@ -155,7 +157,7 @@ OwnCells == [][OneCell(s, s')]_vars
 MainX == [][(s'.insts[1].env["x"] # s.insts[1].env["x"]) => Top(s).o = 1]_vars
 
 NonTrivial(st) == \E T \in DOMAIN st.uses: st.uses[T] >= 2
-Slim(st) == IF st.k \in {"imp", "fimp"} THEN [k |-> st.k, tgt |-> st.tgt, form |-> st.form, alias |-> st.alias]
+Slim(st) == IF st.k \in {"imp", "fimp", "sfimp"} THEN [k |-> st.k, tgt |-> st.tgt, form |-> st.form, alias |-> st.alias]
             ELSE IF st.k = "from" THEN [k |-> "from", tgt |-> st.tgt, form |-> st.form, items |-> st.items, grouped |-> st.grouped]
             ELSE st
 SlimBody(b) == [k \in 1..Len(b) |-> Slim(b[k])]
